@@ -2,7 +2,7 @@
 From Coq Require Import List ZArith Bool.
 From Verif Require Import Gen.Gen_consts C10.Model C10.Spec
   C10.Proofs_Pick C10.Proofs_Adjust C10.Proofs_Budget C10.Proofs_Float C10.Proofs
-  C10.Cases C10.Proofs_Cases C10.Proofs_Paired.
+  C10.Cases C10.Proofs_Cases C10.Proofs_Paired C10.Round C10.Proofs_Round.
 Import ListNotations.
 Open Scope Z_scope.
 
@@ -263,6 +263,71 @@ Theorem c10_quota_history_decided : forall cap ops prev obs,
 Proof. exact hist_code_spec. Qed.
 Print Assumptions c10_quota_history_decided.
 
+(* ======================================================================== whole rounds *)
+
+(* suppressBECPU as production runs it, on one plugin instance: every round computes the budget from
+   the node object, the NodeSLO and the usage metrics and hands it to the cpuset or the cfs-quota
+   policy (recovering the other one); rounds without pods or metrics touch nothing; a NodeSLO that
+   disables the feature recovers both.  For every node/NodeSLO/topology/pod configuration with
+   distinct processor ids and a reservation below 2^50 milli-CPU, every history of rounds and
+   external quota rewrites, from any files satisfying the invariant [rinv] (in particular: all three
+   levels hold the same set), EVERY step satisfies [rstep_ok] with respect to the files just before
+   it: after a cpuset round the container level holds distinct existing unprotected cpus, at most
+   (and with enough free cpus exactly) target(budget) many, for a budget that satisfies the budget
+   formula of THAT round's metrics; after a quota round the quota is the formula value of that
+   budget (bypass / step relative to the previous file) and the cpusets hold no protected cpu. *)
+Theorem c10_round_history : forall c, rcfg_wf c -> forall ops st, rinv c st ->
+  rhist_holds c (obs_of st) ops (rhist c st ops).
+Proof. exact rhist_holds_model. Qed.
+Print Assumptions c10_round_history.
+
+Theorem c10_round_step : forall c st op, rcfg_wf c -> rinv c st ->
+  rinv c (rstep c st op) /\ rstep_ok c (obs_of st) op (obs_of (rstep c st op)).
+Proof. exact rstep_spec. Qed.
+Print Assumptions c10_round_step.
+
+Theorem c10_round_history_decided : forall c ops prev obs,
+  rhist_code c prev ops obs = 0 <-> rhist_holds c prev ops obs.
+Proof. exact rhist_code_spec. Qed.
+Print Assumptions c10_round_history_decided.
+
+(* in the words of the property: after a cpuset-policy round that had pods and metrics, the
+   container-level cpuset was left alone or holds only existing cpus that are not LSE-owned, not
+   reserved for the node (the cpus the reservation annotation lists) and not system-exclusive *)
+Theorem c10_round_no_protected : forall c st mode nodeu pu hu, rcfg_wf c -> rinv c st ->
+  mode <> 2 -> mode <> 1 -> rc_pods c <> [] ->
+  let st' := rstep c st (RRound mode false nodeu pu hu) in
+  rs_ctr st' = rs_ctr st \/
+  forall x, In x (rs_ctr st') ->
+    In x (map cpu (rc_procs c)) /\ protected (round_ainput c 0 []) x = false.
+Proof. exact round_no_protected. Qed.
+Print Assumptions c10_round_no_protected.
+
+(* "growing by at most the step limit per round", over histories: under the none kubelet policy the
+   container-level cpuset grows by at most ceil(nprocs/10) per round (whatever happened before) ... *)
+Theorem c10_round_growth_none : forall c st mode fail nodeu pu hu, rcfg_wf c -> rinv c st ->
+  rc_static c = false -> mode <> 1 -> mode <> 2 ->
+  lenZ (rs_ctr (rstep c st (RRound mode fail nodeu pu hu))) <= lenZ (rs_ctr st) + ceil_div (lenZ (rc_procs c)) 10.
+Proof. exact round_growth_none. Qed.
+Print Assumptions c10_round_growth_none.
+
+(* ... under the static kubelet policy it does NOT (finding C10-static-step-limit): the step limit is
+   computed from the besteffort-level file, which every round resets to all unprotected cpus, so the
+   container level jumps from 2 to 6 cpus in one round on an 8-cpu node (step 1) *)
+Theorem c10_round_growth_static_refuted :
+  rcfg_wf w_static /\ rinv w_static w_static_st /\
+  let st1 := rstep w_static w_static_st (RRound 0 false 288 [256] []) in
+  let st2 := rstep w_static st1 (RRound 0 false 0 [0] []) in
+  lenZ (rs_ctr st1) = 2 /\ lenZ (rs_ctr st2) = 6 /\ ceil_div (lenZ (rc_procs w_static)) 10 = 1.
+Proof. exact round_growth_static_refuted. Qed.
+Print Assumptions c10_round_growth_static_refuted.
+
+(* adjustByCPUSet on files that all hold the same set is the single-step model [adjust] *)
+Theorem c10_round_adjust_uniform : forall i,
+  adjust3 i (to_set (a_old i), to_set (a_old i), to_set (a_old i)) = adjust i.
+Proof. exact adjust3_uniform. Qed.
+Print Assumptions c10_round_adjust_uniform.
+
 (* ======================================================================== what is extracted *)
 
 (* MAIN THEOREM over exactly the functions Extract.v extracts and bin/check runs: on every
@@ -330,6 +395,22 @@ Example c10_nv_policy :
   run_case [6; 16000; 1; 16000; 3; 2; 0; 0; 0; 4; 0;1;2;3; 65; 0; 0; 224; 5; 0; 0; 1; 3;0;1;1;192; 0] = [3400; 3400]
   /\ prop_case [6; 16000; 1; 16000; 3; 2; 0; 0; 0; 4; 0;1;2;3; 65; 0; 0; 224; 5; 0; 0; 1; 3;0;1;1;192; 0] [6900; 3400] = 101.
 Proof. vm_compute. split; reflexivity. Qed.
+
+(* whole rounds: 4 cpus, reservedCPUs {3} (ReservedCPUsOnly), one LS pod; cpuset round, quota round,
+   disabled round: the cpusets never hold cpu 3 *)
+Definition w_rcfg : rcfg :=
+  mkRC 4000 (Some 4000) (mkAnno 3 2 None true [3]) 65 None false [] w_procs
+       [mkRpod Q_LS false true []] [].
+Example c10_nv_rounds :
+  rcfg_wf w_rcfg /\ rinv w_rcfg (mkRS [0;1;2;3] [0;1;2;3] [0;1;2;3] (-1) false)
+  /\ rhist w_rcfg (mkRS [0;1;2;3] [0;1;2;3] [0;1;2;3] (-1) false)
+        [RRound 0 false 64 [32] []; RRound 1 false 64 [32] []; RRound 2 false 0 [0] []]
+     = [([0;1], [0;1], [0;1], -1); ([0;1;2], [0;1;2], [0;1;2], 110000); ([0;1;2], [0;1;2], [0;1;2], -1)].
+Proof.
+  split; [split; [apply nodupb_spec; vm_compute; reflexivity | vm_compute; reflexivity]|].
+  split; [unfold rinv; cbn; repeat split; intros; try reflexivity; discriminate|].
+  vm_compute. reflexivity.
+Qed.
 
 (* the history of seeded mutant C10-m3: quota round, recovered, same quota round again *)
 Example c10_nv_history :
